@@ -62,6 +62,8 @@ def required_counters(tier):
         "raise.with_tentative": 100,
         "pass.repeated": 500,
         "probes": 1000,
+        "suite.events": 1000,
+        "suite.failed_or_raised_events": 100,
     }
 
 
@@ -526,7 +528,44 @@ def run_case(rec, rng, only=None, rngkey=None):
         real.in_block_context(body)
 
 
+def suite_arm(rec):
+    """the repository's own test suite, run under the check-trace monitor: the rollback
+    invariant is asserted on every isinstance event the suite produces"""
+    import json
+    import os
+    import subprocess
+    import sys
+    import tempfile
+
+    repo = os.environ.get("JTV_REPO", "/repo")
+    root = os.path.dirname(os.path.dirname(os.path.dirname(os.path.abspath(__file__))))
+    fd, out = tempfile.mkstemp(prefix="jtv_suite_", suffix=".json")
+    os.close(fd)
+    env = dict(os.environ)
+    env["PYTHONPATH"] = repo + os.pathsep + root
+    env["JTV_SUITE_MONITOR_OUT"] = out
+    try:
+        r = subprocess.run([sys.executable, "-m", "pytest", "-q", "-p", "no:cacheprovider", "-p", "jtv.monitor.suite_plugin", "--timeout=900", "test"], cwd=repo, env=env, capture_output=True, text=True, timeout=1500)
+        try:
+            st = json.load(open(out))
+        except Exception:
+            rec.inconclusive.append("suite-under-monitor produced no summary: " + (r.stdout + r.stderr)[-300:])
+            return
+    finally:
+        try:
+            os.unlink(out)
+        except OSError:
+            pass
+    rec.info["suite_monitor"] = {k: st.get(k) for k in ("attached", "events", "failed_or_raised", "passed")}
+    rec.count("suite.events", st.get("events", 0))
+    rec.count("suite.failed_or_raised_events", st.get("failed_or_raised", 0))
+    for v in st.get("violations", [])[:3]:
+        rec.violation("suite-monitor", v, f"in {v['test']}: check against {v['annotation']} answered {v['result']} but print_bindings changed: {v['before']!r} -> {v['after']!r}", mechanism="suite-monitor-stale-binding-after-" + ("False" if v["result"] == "False" else "exception"))
+
+
 def run_shard(rec, seed, shard, tier):
+    if shard["i"] == NSHARDS - 1:
+        suite_arm(rec)
     GT.ensure_registered()
     for k in range(CASES[tier]):
         key = f"{seed}/C04/{shard['i']}/{k}"
